@@ -41,7 +41,7 @@ EXPLANATION = ("exhaustive in the tie structure of vectors up to length 5 (quick
                "ordering) / 6 (thorough; plus n=7 with band and amount grids uncrossed + 40 random crossings) and in the "
                "length up to 12 / 40; values, parameters and fractions are sampled, hence not exhaustive overall")
 ASSUMPTIONS = [
-    "positive data in [1e-3, 1e3]; parameters |p|,|rho|,|alpha| in [0.5, 30]; KSFunction only where |rho|*max(x) <= 400 "
+    "positive data in [1e-3, 1e3]; parameters |p|,|rho|,|alpha| in [0.5, 30]; KSFunction only where rho*max(x) <= 400 (rho>0) or |rho|*min(x) <= 400 (rho<0) "
     "(it evaluates exp(rho*x) unshifted and overflows beyond ~709: floating range is taken as the domain limit of the "
     "real-arithmetic bounds), PNorm only where |p*ln x| <= 600",
     "bounds: PNorm p>0 [max, n^(1/p) max], p<0 [n^(1/p) min, min]; KS rho>0 [max, max+ln n/rho], rho<0 [min+ln n/rho, min]; "
@@ -162,7 +162,9 @@ def _interval(kind, par, n, mx, mn):
 def _in_domain(kind, par, x):
     mx, mn = float(x.max()), float(x.min())
     if kind == "KSFunction":
-        return abs(par) * mx <= 400.0
+        # exp(rho*x) is evaluated unshifted: for rho > 0 the largest entry must not overflow, for rho < 0 the smallest
+        # (dominant) entry must not underflow; a wide data range with rho < 0 is admissible (the other terms underflow to 0)
+        return par * mx <= 400.0 if par > 0 else abs(par) * mn <= 400.0
     if kind == "PNorm":
         return abs(par) * max(abs(math.log(mx)), abs(math.log(mn))) <= 600.0
     return True
